@@ -20,6 +20,7 @@ RULE = ('generated documents of three schema families (varying depth / width; ID
         'lazy depth, thin, api); distinct non-trivial = distinct (family, fault kind, api, thin) combinations with at '
         'least two root children (several chunks)')
 RULE += (' ' + 'Shard rootx: xsi:type on the root and skip wildcards decide what governs a streamed chunk (two listed findings). Shard chunkns: namespace declarations made on the streamed chunk itself and used by its xsi:type and QName values. Long documents (shop, flat) carry identity faults at their end (a part the streaming reader meets after many chunks); iterfind with a positional predicate is compared too (thin_lazy=True: listed finding).')
+RULE += (' ' + 'In shard chunkns the last child of a chunk may open a namespace scope of its own.')
 ASSUMPTIONS = [
     'lazy errors deliberately carry no element: errors are compared on (reason) in order, not on .elem / .path',
     'lazy decode returns generators for the streamed parts: compared after full materialisation',
